@@ -2,6 +2,7 @@
 import z3
 
 from pyvc.engine import Target, Registry, LoopInv, MaybeUndef, Custom, model, goal, Outcome
+from pyvc.values import Infeasible
 from pyvc.values import (V, NONE, Seq, SymMap, Obj, Cx, SliceVal, ExcVal, PyRaise, Unsupported, veq, uf,
                          ite, to_z3, to_int, to_real, fresh_int, fresh_real, fresh_bool, fresh_v,
                          round_half_even, trunc, concrete_int, is_v, is_z3, map_eq, to_cx)
@@ -83,7 +84,12 @@ def mkobj_init(ip, repo, qualname, args=(), kwargs=None, **overrides):
     cls = repo.resolve(qualname)
     if cls is None:
         raise Unsupported('contract target missing: class %s' % qualname)
-    o = ip.call(cls, list(args), dict(kwargs or {}))
+    try:
+        o = ip.call(cls, list(args), dict(kwargs or {}))
+    except PyRaise:
+        # scenario precondition: the constructor accepts the arguments (paths on which it rejects them
+        # are not scenarios of the function under contract)
+        raise Infeasible()
     o.fields.update(overrides)
     return o
 
